@@ -112,6 +112,38 @@ class StructVal:
         self.tname = tname
 
 
+class ObjVal:
+    """A Python object standing for a value of a derived type whose
+    definition is not part of the interpreted tree (mock run-time objects,
+    e.g. the LFRic field / proxy / mesh / function-space objects of E6).
+
+    Components and type-bound procedures are attributes of the wrapped
+    object: an attribute that is a storage object (Cell / ArrayVal /
+    StructVal / ObjVal) is a data component, a callable attribute is a
+    type-bound procedure (called with evaluated actual arguments; named
+    actual arguments are passed as keywords), a plain Python value is a
+    read-only scalar component and any other object is wrapped in a new
+    ObjVal.  Assigning an ObjVal to a variable stores the handle (reference
+    semantics: the mock object decides what a copy means)."""
+    __slots__ = ("obj",)
+
+    def __init__(self, obj):
+        self.obj = obj
+
+    def member(self, name):
+        try:
+            return getattr(self.obj, name)
+        except AttributeError:
+            raise Unsupported(f"{type(self.obj).__name__} object has no "
+                              f"component or procedure '{name}'")
+
+    def __repr__(self):
+        return f"ObjVal({self.obj!r})"
+
+
+_NOT_OBJ = object()
+
+
 class _Return(Exception):
     pass
 
@@ -360,6 +392,9 @@ class Interp:
         # called from the interpreted code are bound by NAME, i.e. the
         # semantics of textually substituting the actual arguments.
         self.by_name = False
+        # Opt-in: assignment to an unallocated allocatable array allocates
+        # it with the shape of the right-hand side (Fortran 2003).
+        self.realloc_lhs = False
 
     # -- events ----------------------------------------------------------
     def _rd(self, cell, node):
@@ -505,6 +540,17 @@ class Interp:
         # A same-named symbol of another (copied) table may already have
         # storage in this frame (transformations create duplicates rarely).
         in_routine = self._declared_in_routine(sym, frame)
+        # Optional hook `local(interp, symbol, frame)`: storage for a local
+        # variable the interpreter cannot allocate itself (unresolved
+        # derived types, pointer declarations); None = not handled.
+        if self.hooks is not None and hasattr(self.hooks, "local"):
+            stor = self.hooks.local(self, sym, frame)
+            if stor is not None:
+                if in_routine:
+                    frame.store[key] = stor
+                else:
+                    self.globals[key] = stor
+                return stor
         stor = self.allocate(sym.name.lower(), sym.datatype, frame)
         init = sym.initial_value
         if init is not None:
@@ -580,13 +626,15 @@ class Interp:
     @staticmethod
     def _struct_of(stor):
         if isinstance(stor, Cell):
-            if isinstance(stor.v, StructVal):
+            if isinstance(stor.v, (StructVal, ObjVal)):
                 return stor.v
             raise UB("type", "not a structure")
         return stor
 
     def _member(self, base, mem, frame):
         base = self._struct_of(base)
+        if isinstance(base, ObjVal):
+            return self._obj_member(base, mem, frame)
         if not isinstance(base, StructVal):
             if isinstance(base, ArrayVal):
                 raise Unsupported("member of array of structures section")
@@ -603,6 +651,79 @@ class Interp:
         if isinstance(mem, N.ArrayMember):
             return self._index(sub, mem.indices, frame, mem)
         return sub
+
+    @staticmethod
+    def _wrap_obj(val):
+        """Result of looking up / calling something on an ObjVal -> storage."""
+        if isinstance(val, (Cell, ArrayVal, StructVal, ObjVal)):
+            return val
+        if val is POISON or isinstance(val, (bool, int, Fraction, str)):
+            return Cell(("<obj>", ()), None, val)
+        return ObjVal(val)
+
+    def _obj_member(self, base, mem, frame):
+        """Component / type-bound function reference on a Python object.
+        `obj%f(i, j)` is an ArrayMember in PSyIR: when `f` is callable it is
+        a function reference with the subscripts as actual arguments."""
+        sub = base.member(mem.name.lower())
+        if isinstance(mem, N.ArrayOfStructuresMember):
+            sub = self._struct_of(self._index(self._wrap_obj(sub),
+                                              mem.indices, frame, mem))
+            return self._member(sub, mem.member, frame)
+        if isinstance(mem, N.StructureMember):
+            return self._member(self._wrap_obj(sub), mem.member, frame)
+        if isinstance(mem, N.ArrayMember):
+            if callable(sub):
+                args = [self.eval(idx, frame) for idx in mem.indices]
+                return self._wrap_obj(sub(*args))
+            return self._index(self._wrap_obj(sub), mem.indices, frame, mem)
+        if callable(sub):
+            raise Unsupported(f"procedure component '{mem.name}' used as data")
+        return self._wrap_obj(sub)
+
+    def _typebound_call(self, node, frame):
+        """`call obj%path%proc(args)` / `obj%path%proc(args)` where obj is
+        bound to an ObjVal: returns the procedure's result, or _NOT_OBJ if
+        the base is not a Python object (existing behaviour applies)."""
+        ref = node.routine
+        try:
+            base = self._struct_of(self.storage(ref.symbol, frame, ref))
+        except (UB, Unsupported):
+            return _NOT_OBJ
+        mem = ref.member
+        while True:
+            if not isinstance(base, ObjVal):
+                return _NOT_OBJ
+            if isinstance(mem, N.StructureMember):
+                base = self._struct_of(
+                    self._wrap_obj(base.member(mem.name.lower())))
+                mem = mem.member
+                continue
+            break
+        if type(mem) is not N.Member:
+            return _NOT_OBJ
+        proc = base.member(mem.name.lower())
+        if not callable(proc):
+            raise UB("type", f"'{mem.name}' is not a procedure")
+        args, kwargs = [], {}
+        for arg, name in zip(node.arguments, node.argument_names):
+            if isinstance(arg, N.Reference) and not isinstance(arg, N.Call):
+                stor = self.designator(arg, frame)
+                val = stor if isinstance(stor, (ArrayVal, ObjVal)) \
+                    else self.read(stor, arg)
+            else:
+                val = self.eval(arg, frame)
+            if name is None:
+                args.append(val)
+            else:
+                kwargs[name.lower()] = val
+        res = proc(*args, **kwargs)
+        if res is None or isinstance(res, (ArrayVal, ArrVal, StructVal,
+                                           ObjVal)):
+            return res
+        if res is POISON or isinstance(res, (bool, int, Fraction, str)):
+            return res
+        return ObjVal(res)
 
     def _index(self, arr, indices, frame, node):
         if not isinstance(arr, ArrayVal):
@@ -652,7 +773,7 @@ class Interp:
     def read(self, stor, node):
         """rvalue of a storage object."""
         if isinstance(stor, Cell):
-            if isinstance(stor.v, StructVal):
+            if isinstance(stor.v, (StructVal, ObjVal)):
                 return stor.v
             return self._rd(stor, node)
         if isinstance(stor, ArrayVal):
@@ -681,6 +802,12 @@ class Interp:
         if isinstance(node, N.Call):
             return self.call_node(node, frame, function=True)
         if isinstance(node, N.CodeBlock):
+            # Optional hook `codeblock_expr(interp, node, frame)` evaluates
+            # an expression the reader kept as a CodeBlock (e.g. type-bound
+            # function references); it returns the value.
+            if self.hooks is not None and \
+                    hasattr(self.hooks, "codeblock_expr"):
+                return self.hooks.codeblock_expr(self, node, frame)
             raise Unsupported("expression CodeBlock")
         raise Unsupported(f"expression {type(node).__name__}")
 
@@ -772,13 +899,31 @@ class Interp:
         if isinstance(target, Cell):
             if isinstance(val, ArrVal):
                 raise UB("shape", "array value assigned to scalar")
+            if isinstance(val, ObjVal):
+                # handle assignment (no tracer event: not a data location)
+                target.v = val
+                return
             if isinstance(val, StructVal):
                 raise Unsupported("structure assignment")
             self._wr(target, val, node.lhs)
         elif isinstance(target, ArrayVal):
+            if self.realloc_lhs and not target.allocated and \
+                    not target.cells and isinstance(val, (ArrVal, ArrayVal)):
+                # Fortran 2003 allocation on assignment (opt-in)
+                if isinstance(val, ArrayVal):
+                    val = self.read(val, node.rhs)
+                self._alloc_on_assign(target, val.shape)
             self._assign_array(target, val, node.lhs)
         else:
             raise Unsupported("assignment to whole structure")
+
+    @staticmethod
+    def _alloc_on_assign(target, shape):
+        target.bounds = [(1, ext) for ext in shape]
+        target.cells = [Cell((target.name, idx), target.typ, parent=target,
+                             pos=pos)
+                        for pos, idx in enumerate(index_tuples(target.bounds))]
+        target.allocated = True
 
     def _assign_array(self, target, val, node):
         if not target.allocated:
@@ -840,6 +985,10 @@ class Interp:
 
     # -- calls -----------------------------------------------------------
     def call_node(self, node, frame, function):
+        if isinstance(node.routine, N.StructureReference):
+            res = self._typebound_call(node, frame)
+            if res is not _NOT_OBJ:
+                return res
         name = node.routine.name.lower()
         rout = self.routines.get(name)
         if rout is None:
